@@ -57,6 +57,10 @@ pub struct Canon {
 }
 
 impl Canon {
+    /// addresses of all allocations met (to show that two documents share nothing)
+    pub fn addresses(&self) -> std::collections::HashSet<usize> {
+        self.st.keys().copied().collect()
+    }
     pub fn classes(&self) -> usize {
         self.per_label.len()
     }
